@@ -433,6 +433,19 @@ end Scryer.AllSol
 namespace Scryer.AllSol
 open Scryer
 
+theorem pairwise_total_of_mem {β : Type} {R : β → β → Prop} {l : List β} (h : l.Pairwise R) :
+    ∀ a ∈ l, ∀ b ∈ l, a = b ∨ R a b ∨ R b a := by
+  induction l with
+  | nil => simp
+  | cons x xs ih =>
+    intro a ha b hb
+    rw [List.pairwise_cons] at h
+    rcases List.mem_cons.mp ha with ea | ha' <;> rcases List.mem_cons.mp hb with eb | hb'
+    · exact Or.inl (ea.trans eb.symm)
+    · exact Or.inr (Or.inl (ea ▸ h.1 b hb'))
+    · exact Or.inr (Or.inr (eb ▸ h.1 a ha'))
+    · exact ih h.2 a ha' b hb'
+
 theorem mem_dedup : ∀ (l : List String) (v : String), v ∈ dedup l ↔ v ∈ l
   | [], v => by simp [dedup]
   | x :: xs, v => by
@@ -452,7 +465,7 @@ theorem dedup_nodup : ∀ (l : List String), (dedup l).Nodup
   | [] => by simp [dedup]
   | x :: xs => by
     simp only [dedup, List.nodup_cons, List.mem_filter, bne_iff_ne, ne_eq, not_and]
-    refine ⟨fun _ h => h rfl, ?_⟩
+    refine ⟨fun _ h => h trivial, ?_⟩
     exact (dedup_nodup xs).sublist List.filter_sublist
 
 theorem dedup_of_nodup : ∀ (l : List String), l.Nodup → dedup l = l
